@@ -1,11 +1,93 @@
 import TdVerif.Sexp
+import TdVerif.Model.C17Ctx
+import TdVerif.Drive.C02
 
 namespace TdVerif.Drive
-open TdVerif Sexp
+open TdVerif Sexp TdVerif.C02 TdVerif.C17
 
-/-- line-protocol handler for C17: commands are named `c17.<something>` -/
+namespace C17D
+
+def chars? (l : List Sexp) : Option (List Char) := (nats? l).map (·.map Char.ofNat)
+def charsSexp (l : List Char) : Sexp := ofNats (l.map Char.toNat)
+
+def key? : Sexp → Option Key
+  | .list comps => comps.mapM fun (x : Sexp) => match x with
+    | Sexp.list cs => chars? cs
+    | _ => none
+  | _ => none
+
+def keySexp (k : Key) : Sexp := .list (k.map charsSexp)
+
+def val? : Sexp → Option Val
+  | .list [.atom "int", i] => (asInt? i).map Val.int
+  | .list (.atom "ints" :: l) => (ints? l).map Val.ints
+  | .list (.atom "str" :: l) => (chars? l).map Val.str
+  | .list [.atom "bool", .atom b] => some (.bool (b == "true"))
+  | .atom "none" => some .none
+  | _ => none
+
+def valSexp : Val → Sexp
+  | .int i => tagged "int" [ofInt i]
+  | .ints l => tagged "ints" (l.map ofInt)
+  | .str s => tagged "str" (s.map fun ch => ofNat ch.toNat)
+  | .bool b => tagged "bool" [.atom (if b then "true" else "false")]
+  | .none => .atom "none"
+
+def call? : Sexp → Option Call
+  | .list [.atom "call", .list (.atom "args" :: as), .list (.atom "kwargs" :: kws)] => do
+    let as ← as.mapM val?
+    let kws ← kws.mapM fun (x : Sexp) => match x with
+      | Sexp.list [Sexp.atom k, v] => (val? v).map (fun v => (k, v))
+      | _ => none
+    pure ⟨as, kws⟩
+  | _ => none
+
+def st? : Sexp → Option St
+  | .list [.atom "st", .list bs, nm, .list (.atom "keys" :: ks), .atom locked] => do
+    let bs ← nats? bs
+    let nm ← C02D.names? nm
+    let ks ← ks.mapM key?
+    pure ⟨bs, nm, ks, locked == "true"⟩
+  | _ => none
+
+def stSexp (s : St) : Sexp :=
+  tagged "st" [ofNats s.bs, C02D.namesSexp s.names s.bs.length, tagged "keys" (s.keys.map keySexp),
+    .atom (if s.locked then "true" else "false")]
+
+def edit? : Sexp → Option Edit
+  | .list [.atom "value"] => some .value
+  | .list [.atom "add", k] => (key? k).map Edit.addKey
+  | _ => none
+
+def bool (b : Bool) : Sexp := .atom (if b then "true" else "false")
+
+end C17D
+
+/-- line-protocol handler for C17 -/
 def handleC17 (cmd : String) (args : List Sexp) : Option Sexp :=
   match cmd, args with
+  | "c17.fwd", [.atom name, c, s] => do
+      let c ← C17D.call? c; let s ← C17D.st? s
+      match fwd name c s with
+      | .error e => pure (C02D.errSexp e)
+      | .ok y => pure (tagged "ok" [C17D.stSexp y.st, C17D.bool y.isSelf, C17D.bool y.recorded])
+  | "c17.reverse", [.atom name, c, y, out] => do
+      let c ← C17D.call? c; let y ← C17D.st? y; let out ← C17D.st? out
+      match reverse name c y out with
+      | .error e => pure (C02D.errSexp e)
+      | .ok (n, ic) => pure (tagged "ok" [.atom n, .list (ic.args.map C17D.valSexp)])
+  | "c17.with", [.atom name, c, .list (.atom "edits" :: es), s] => do
+      let c ← C17D.call? c; let s ← C17D.st? s; let es ← es.mapM C17D.edit?
+      match withBlock name c es s with
+      | .error e => pure (C02D.errSexp e)
+      | .ok r => pure (tagged "ok" [C17D.stSexp r])
+  | "c17.nested", [.atom kind, .atom n1, c1, .atom n2, c2, .list (.atom "edits" :: e2), .list (.atom "edits" :: e1), s] => do
+      let c1 ← C17D.call? c1; let c2 ← C17D.call? c2; let s ← C17D.st? s
+      let e2 ← e2.mapM C17D.edit?; let e1 ← e1.mapM C17D.edit?
+      let r := if kind == "yielded" then withNested n1 c1 n2 c2 e2 e1 s else withSibling n1 c1 n2 c2 e2 e1 s
+      match r with
+      | .error e => pure (C02D.errSexp e)
+      | .ok r => pure (tagged "ok" [C17D.stSexp r])
   | _, _ => none
 
 end TdVerif.Drive
